@@ -3,7 +3,7 @@
     M = ChunkModel.v (hchunks.c index arithmetic) and MCacheModel.v (mcache.c), both over gen/Gen_Chunk.v, which is
     regenerated from the C sources on every run. *)
 From Coq Require Import ZArith List Bool String Lia.
-Require Import H4.gen.Gen_Chunk H4.ChunkModel H4.MCacheModel H4.ChunkProofs H4.MCacheProofs.
+Require Import H4.gen.Gen_Chunk H4.ChunkModel H4.MCacheModel H4.HChunkModel H4.ChunkProofs H4.MCacheProofs H4.HChunkProofs.
 Import ListNotations.
 Local Open Scope Z_scope.
 
@@ -54,21 +54,62 @@ Theorem mcache_refines_map : forall maxc np (s0 : fstore) os,
 Proof. exact mcache_refines_map_lemma. Qed.
 Print Assumptions mcache_refines_map.
 
-(** chunked_refines_stream (partial).  Element-granular: after any sequence of element writes through chunk_locate
-    into a chunk table whose absent chunks read as the fill value, reading any element returns what the byte-stream
-    specification returns (last value written there, else fill) -- for every rank, extent and chunk shape.
-    MISSING for the full statement: the composition of the while loops of HMCPwrite/HMCPread (piece by piece, with
-    mcache in between) into one refinement lemma; the ingredients are chunk_run_contig (a piece is a contiguous run in
-    one chunk) and mcache_refines_map (the cache is transparent), the loop composition itself is covered by the
-    R-vs-S correspondence only.  Whole-chunk I/O = slab I/O on the same region likewise rests on the correspondence. *)
-Theorem chunked_refines_stream_partial : forall nt dd fill ws,
-  1 <= nt -> Forall valid_dim dd -> prod (map d_len dd) * nt < 2147483648 ->
-  Forall (fun w => 0 <= fst w < prod (map d_len dd)) ws ->
-  forall q, 0 <= q < prod (map d_len dd) ->
-    chunk_read_elem nt dd (chunk_writes nt dd (fun _ _ => fill) ws) (q * nt) =
-    stream_writes (fun _ => fill) ws q.
-Proof. exact chunked_refines_stream_lemma. Qed.
-Print Assumptions chunked_refines_stream_partial.
+(** chunked_refines_stream.  The transfer loops of hchunks.c composed with the cache refine the byte stream of S2:
+    for every rank, extent and chunk shape ([geometry_ok]), every cache state reachable from mcache_open over a store
+    of full-size pages ([st_ok]: the mcache invariant + page lengths), HMCPwrite (locate, piece length, mcache_get,
+    memcpy, mcache_put DIRTY, advance -- [hmcp_write]) overwrites exactly the bytes [e*nt,(e+r)*nt) of the stream the
+    application sees through cache + chunk table, HMCPread ([hmcp_read]) returns exactly those bytes and changes
+    nothing, whatever the cache size; and pages that repeat the fill element (what HMCPchunkread produces for an
+    absent chunk) read as the fill value.  Fuel only bounds the loop count; the theorem shows it is never exhausted
+    (result is [Some]). *)
+Theorem chunked_refines_stream : forall nt dd, geometry_ok nt dd ->
+  (forall maxc s0, pages_ok nt dd s0 -> st_ok nt dd (mcache_open maxc (npg dd), s0)) /\
+  (forall fuel data st e r,
+     st_ok nt dd st -> 0 <= e -> Z.of_nat (List.length data) = r * nt -> e + r <= total dd -> (List.length data <= fuel)%nat ->
+     exists st', hmcp_write nt dd fuel st (e * nt) data = Some st' /\ st_ok nt dd st' /\
+       forall q, 0 <= q < total dd * nt ->
+         stream_of nt dd (view (fst st') (snd st')) q =
+         if (e * nt <=? q) && (q <? e * nt + r * nt) then znth data (q - e * nt)
+         else stream_of nt dd (view (fst st) (snd st)) q) /\
+  (forall fuel st e r,
+     st_ok nt dd st -> 0 <= e -> 0 <= r -> e + r <= total dd -> (Z.to_nat r <= fuel)%nat ->
+     exists st' out, hmcp_read nt dd fuel st (e * nt) (r * nt) = Some (st', out) /\ st_ok nt dd st' /\
+       (forall n, view (fst st') (snd st') n = view (fst st) (snd st) n) /\
+       Z.of_nat (List.length out) = r * nt /\
+       forall i, 0 <= i < r * nt -> znth out i = stream_of nt dd (view (fst st) (snd st)) (e * nt + i)) /\
+  (forall (v : Z -> page) (fe : list Z),
+     (forall cn off b, (nt | off) -> 0 <= b < nt -> znth (v cn) (off + b) = znth fe b) ->
+     forall q, 0 <= q < total dd * nt -> stream_of nt dd v q = znth fe (q mod nt)).
+Proof. exact chunked_refines_stream_lemma2. Qed.
+Print Assumptions chunked_refines_stream.
+
+(** whole_chunk_is_slab.  Whole-chunk I/O addresses the hyperslab of the same region: for every chunk origin o and
+    every chunk-relative coordinate r inside the extent, the element at array coordinates o*chunk_length + r (its
+    stream position computed by compute_array_to_seek, the code's own linearisation) is located in chunk
+    calculate_chunk_num(o) at calculate_seek_in_chunk(r); hence the buffer HMCreadChunk returns holds at r's position
+    the very stream bytes a slab read of that region returns, and after HMCwriteChunk a slab read of the region returns
+    the buffer's in-extent bytes while every byte of every other chunk keeps its value -- through the cache, for every
+    cache size. *)
+Theorem whole_chunk_is_slab : forall nt dd, geometry_ok nt dd ->
+  forall o, List.length o = List.length dd -> Forall origin_ok (combine o dd) ->
+  (forall r, List.length r = List.length dd -> Forall region_ok (combine (combine o r) dd) ->
+     chunk_locate nt dd (compute_array_to_seek nt (region_coords dd o r) dd) =
+     (calculate_chunk_num o dd, calculate_seek_in_chunk nt r dd)) /\
+  (forall st, st_ok nt dd st ->
+     exists st' buf, hmc_readchunk dd st o = Some (st', buf) /\ st_ok nt dd st' /\
+       (forall n, view (fst st') (snd st') n = view (fst st) (snd st) n) /\
+       forall r b, List.length r = List.length dd -> Forall region_ok (combine (combine o r) dd) -> 0 <= b < nt ->
+         znth buf (calculate_seek_in_chunk nt r dd + b) =
+         stream_of nt dd (view (fst st) (snd st)) (compute_array_to_seek nt (region_coords dd o r) dd + b)) /\
+  (forall st data, st_ok nt dd st -> Z.of_nat (List.length data) = csize nt dd ->
+     exists st', hmc_writechunk dd st o data = Some st' /\ st_ok nt dd st' /\
+       (forall r b, List.length r = List.length dd -> Forall region_ok (combine (combine o r) dd) -> 0 <= b < nt ->
+          stream_of nt dd (view (fst st') (snd st')) (compute_array_to_seek nt (region_coords dd o r) dd + b) =
+          znth data (calculate_seek_in_chunk nt r dd + b)) /\
+       (forall q, fst (chunk_locate nt dd (q / nt * nt)) <> calculate_chunk_num o dd ->
+          stream_of nt dd (view (fst st') (snd st')) q = stream_of nt dd (view (fst st) (snd st)) q)).
+Proof. exact whole_chunk_is_slab_lemma. Qed.
+Print Assumptions whole_chunk_is_slab.
 
 (** the generated constants / loop headers the models' case analyses rely on *)
 Theorem generated_skeleton_as_modelled :
@@ -102,6 +143,23 @@ Example cache_history_meets_hypotheses :
                            s 0 = [5;7] /\ s 1 = [7;7] /\ s 2 = [6;7] /\ view mp s 1 = [9;7]
    | None => False end).
 Proof. cbv zeta. split. simpl. repeat split; try lia; auto. vm_compute. repeat split; reflexivity. Qed.
+
+Example loops_through_cache_of_one_page :
+  let dd := [mk_dim 5 2; mk_dim 7 3] in
+  let fillpg := repeat 9 12 in
+  geometry_ok 2 dd /\ pages_ok 2 dd (fun _ => fillpg) /\
+  origin_ok (2, mk_dim 5 2) /\ region_ok ((2, 0), mk_dim 5 2) /\ region_ok ((2, 0), mk_dim 7 3) /\
+  (match hmcp_write 2 dd 20 (mcache_open 1 (npg dd), fun _ => fillpg) (12 * 2) [1;2;3;4;5;6;7;8;1;2] with
+   | Some st => match hmcp_read 2 dd 20 st (10 * 2) (8 * 2) with
+                | Some (_, out) => out = [9;9;9;9;1;2;3;4;5;6;7;8;1;2;9;9]
+                | None => False end
+   | None => False end).
+Proof.
+  cbv zeta. split; [|split].
+  - split; [lia|]. split; [discriminate|]. split; [repeat constructor; apply mk_dim_valid; lia | vm_compute; reflexivity].
+  - intros cn _. reflexivity.
+  - vm_compute. repeat split; congruence.
+Qed.
 
 Example stream_example :
   chunk_read_elem 1 [mk_dim 5 2; mk_dim 7 3]
